@@ -12,6 +12,7 @@
 #ifndef CPPCMS_NO_CACHE
 #include "cache_storage.h"
 #include <booster/thread.h>
+#include <cppcms/urandom.h>
 #include <iostream>
 
 
@@ -239,6 +240,10 @@ public:
 		refs(0),
 		generation(0)
 	{
+		// Generations are compared by L1 caches of remote clients: start each instance from
+		// its own random point so that they do not repeat after the cache server was restarted
+		urandom_device rnd;
+		rnd.generate(&generation,sizeof(generation));
 		nl_clear();
 	}
 	~mem_cache()
